@@ -46,28 +46,50 @@ EdgeOK(cap, target, fit, window, seg, segOver, r) ==
   /\ fit => r.kind # "OverFull"                                                          \* NoOverWhenFit
 \* The same obligations stated on what a caller can observe of one call - result kind, value, remainder, buffered bytes
 \* afterwards - without reference to the branches of the present implementation. Any accumulator that satisfies C08/C09
-\* passes, whichever call it chooses to report an overflow in and however much of an over-long segment it consumes per call.
+\* passes, whichever call it chooses to report an overflow in, however much of an over-long segment it consumes per call,
+\* and whether or not it reports anything for the rest of a segment it has already reported as over-long.
 \* o = [kind, v, rem, buf]
-EdgeOKObs(cap, target, fit, window, seg, segOver, o) ==
+\* a call that starts inside a segment for which no overflow has been reported (seg = its bytes so far)
+EdgeFresh(cap, target, fit, window, seg, o) ==
   /\ Len(o.rem) <= Len(window)
   /\ LET consumed == SubSeq(window, 1, Len(window) - Len(o.rem))
          endsZero == consumed # <<>> /\ consumed[Len(consumed)] = 0 IN
      /\ consumed \o o.rem = window                                                          \* Conserve
-     /\ FirstZero(consumed) \in {0, Len(consumed)}                                          \* a call never passes a sentinel: one result per zero
+     /\ FirstZero(consumed) \in {0, Len(consumed)}                                          \* never past the sentinel of a segment it owes a result for
      /\ o.kind \in {"Consumed", "Success", "DeserError", "OverFull"}
-     /\ (o.kind = "Consumed") => (~endsZero /\ o.rem = <<>>)
+     /\ (o.kind = "Consumed") => (~endsZero /\ o.rem = <<>>)                                 \* one result per zero
      /\ (o.kind \in {"Success", "DeserError"}) => endsZero
      /\ endsZero => o.buf = <<>>                                                            \* InitAfterZero
-     /\ (endsZero /\ ~segOver /\ Len(seg) + Len(consumed) <= cap) =>                        \* FrameResult
+     /\ (endsZero /\ Len(seg) + Len(consumed) <= cap) =>                                    \* FrameResult
            LET f == FrameOutcome(target, seg \o consumed) IN o.kind = f.kind /\ (f.kind = "Success" => o.v = f.v)
-     /\ (endsZero /\ ~segOver /\ Len(seg) + Len(consumed) > cap) => o.kind = "OverFull"     \* OverflowReported
+     /\ (endsZero /\ Len(seg) + Len(consumed) > cap) => o.kind = "OverFull"                 \* OverflowReported (before the sentinel is passed)
      /\ fit => o.kind # "OverFull"                                                          \* NoOverWhenFit
      /\ Len(o.buf) <= cap
+\* a call that starts in the rest of a segment already reported as over-long: nothing is owed for that rest, its sentinel
+\* may be reported on or passed silently; whatever follows the sentinel inside the same call is a fresh segment
+EdgeOKObs(cap, target, fit, window, seg, segOver, o) ==
+  IF ~segOver THEN EdgeFresh(cap, target, fit, window, seg, o)
+  ELSE /\ Len(o.rem) <= Len(window)
+       /\ LET consumed == SubSeq(window, 1, Len(window) - Len(o.rem))
+              z == FirstZero(consumed) IN
+          IF z # 0 /\ z < Len(consumed)
+          THEN EdgeFresh(cap, target, fit, SubSeq(window, z + 1, Len(window)), <<>>, o)
+          ELSE /\ consumed \o o.rem = window
+               /\ o.kind \in {"Consumed", "Success", "DeserError", "OverFull"}
+               /\ (o.kind = "Consumed") => o.rem = <<>>
+               /\ (o.kind \in {"Success", "DeserError"}) => z # 0
+               /\ (z # 0) => o.buf = <<>>                                                   \* initial state after every zero byte
+               /\ ~fit /\ Len(o.buf) <= cap
 \* ghost update
 NextSeg(window, seg, segOver, r) ==
   LET consumed == SubSeq(window, 1, Len(window) - Len(r.rem))
-      endsZero == consumed # <<>> /\ consumed[Len(consumed)] = 0 IN
+      z == FirstZero(consumed)
+      \* the part of consumed that belongs to the segment now current (after a silently passed sentinel of an over-long one)
+      cur == IF segOver /\ z # 0 /\ z < Len(consumed) THEN SubSeq(consumed, z + 1, Len(consumed)) ELSE consumed
+      fresh == segOver /\ z # 0 /\ z < Len(consumed)
+      endsZero == cur # <<>> /\ cur[Len(cur)] = 0 IN
   IF endsZero THEN [seg |-> <<>>, over |-> FALSE]
   ELSE IF r.kind = "OverFull" THEN [seg |-> <<>>, over |-> TRUE]
+  ELSE IF fresh THEN [seg |-> cur, over |-> FALSE]
   ELSE [seg |-> IF segOver THEN <<>> ELSE seg \o consumed, over |-> segOver]
 =============================================================================
